@@ -355,6 +355,35 @@ func (s *UtxoStore) removeUnminedGameHistory(tx mwdb.DBTransaction, rec *TxRecor
 	return nil
 }
 
+// pruneUnminedInput strikes from the unmined-inputs record of outpoint k the spenders that are
+// no longer in the unmined bucket, and deletes the record when none is left.
+func pruneUnminedInput(nsUnminedInputs, nsUnmined mwdb.Bucket, k []byte) error {
+	spenders, err := nsUnminedInputs.Get(k)
+	if err != nil {
+		return err
+	}
+	if len(spenders) == 0 {
+		return nil
+	}
+	remaining := make([]byte, 0, len(spenders))
+	for off := 0; off+wire.HashSize <= len(spenders); off += wire.HashSize {
+		v, err := existsRawUnmined(nsUnmined, spenders[off:off+wire.HashSize])
+		if err != nil {
+			return err
+		}
+		if len(v) != 0 {
+			remaining = append(remaining, spenders[off:off+wire.HashSize]...)
+		}
+	}
+	if len(remaining) == 0 {
+		return deleteRawUnminedInput(nsUnminedInputs, k)
+	}
+	if len(remaining) != len(spenders) {
+		return nsUnminedInputs.Put(k, remaining)
+	}
+	return nil
+}
+
 func (s *UtxoStore) removeRelevantCredit(tx mwdb.DBTransaction,
 	scriptHashSet map[string]struct{}) (map[wire.Hash]uint64, bool, error) {
 	if len(scriptHashSet) == 0 {
@@ -363,6 +392,7 @@ func (s *UtxoStore) removeRelevantCredit(tx mwdb.DBTransaction,
 	nsDebits := tx.FetchBucket(s.bucketMeta.nsDebits)
 	nsCredits := tx.FetchBucket(s.bucketMeta.nsCredits)
 	nsUnminedInputs := tx.FetchBucket(s.bucketMeta.nsUnminedInputs)
+	nsUnmined := tx.FetchBucket(s.bucketMeta.nsUnmined)
 
 	iter := nsCredits.NewIterator(nil)
 	defer iter.Release()
@@ -402,8 +432,12 @@ func (s *UtxoStore) removeRelevantCredit(tx mwdb.DBTransaction,
 					"tx":    cred.outPoint.Hash.String(),
 					"index": cred.outPoint.Index,
 				})
+			// a pending transaction that stays in the store (it is another wallet's as well)
+			// keeps the coin reserved; only spenders that are gone are struck from the record
 			k := canonicalOutPoint(&cred.outPoint.Hash, cred.outPoint.Index)
-			_ = deleteRawUnminedInput(nsUnminedInputs, k)
+			if err = pruneUnminedInput(nsUnminedInputs, nsUnmined, k); err != nil {
+				return nil, false, err
+			}
 
 			if cred.flags.Spent {
 
@@ -441,6 +475,7 @@ func (s *UtxoStore) removeRelevantUnminedCredit(tx mwdb.DBTransaction,
 
 	nsUnminedCredits := tx.FetchBucket(s.bucketMeta.nsUnminedCredits)
 	nsUnminedInputs := tx.FetchBucket(s.bucketMeta.nsUnminedInputs)
+	nsUnmined := tx.FetchBucket(s.bucketMeta.nsUnmined)
 
 	iter := nsUnminedCredits.NewIterator(nil)
 	defer iter.Release()
@@ -467,8 +502,12 @@ func (s *UtxoStore) removeRelevantUnminedCredit(tx mwdb.DBTransaction,
 					"tx":    cred.outPoint.Hash.String(),
 					"index": cred.outPoint.Index,
 				})
+			// spenders that stay in the store keep their record, those that are deleted
+			// with the wallet take theirs along (RemoveRelevantTx)
 			k := canonicalOutPoint(&cred.outPoint.Hash, cred.outPoint.Index)
-			_ = deleteRawUnminedInput(nsUnminedInputs, k)
+			if err = pruneUnminedInput(nsUnminedInputs, nsUnmined, k); err != nil {
+				return nil, err
+			}
 			txs[cred.outPoint.Hash] = struct{}{}
 		}
 	}
